@@ -195,7 +195,17 @@ def rule_py_extents_agree(out, pyr):
 
             for items, oc in mp.paths(fn.body):
                 env, avail, pending = {}, None, None
-                for it in items:
+                rest_read = None
+                for it in items + [("end", oc)]:
+                    if it[0] == "end":
+                        if reader:
+                            key = "%s.%s/rest of the buffer taken" % (cname, mname)
+                            if rest_read is not None and oc != "raise":
+                                note(key, False, rest_read, "copies `self._view[self._offset : self._last_read_count]` (all that is left in the buffer) out and returns without `self._offset = self._last_read_count`: "
+                                     "the bytes stay marked as unread and the NEXT reads are served from them again instead of from the stream position behind the block")
+                            elif any(isinstance(x, ast.Slice) and _is_self_attr(x.upper, "_last_read_count") and _is_self_attr(x.lower, "_offset") for i2 in items if i2[0] == "stmt" for x in ast.walk(i2[1])):
+                                note(key, True, fn, "marked consumed (`self._offset = self._last_read_count`) on the path")
+                        continue
                     if it[0] == "guard":
                         if it[1] is not None:
                             f = _avail_fact(it[1], it[2], env)
@@ -207,6 +217,8 @@ def rule_py_extents_agree(out, pyr):
                     if reader:
                         for n in ast.walk(st):
                             ext = None
+                            if isinstance(n, ast.Assign) and len(n.targets) == 1 and _is_self_attr(n.targets[0], "_offset") and _is_self_attr(n.value, "_last_read_count"):
+                                rest_read = None
                             if isinstance(n, ast.Subscript) and isinstance(n.ctx, ast.Load) and _buffer_like(n.value):
                                 if _is_self_attr(n.slice, "_offset"):
                                     ext = "1"
@@ -214,6 +226,8 @@ def rule_py_extents_agree(out, pyr):
                                     up = _offset_plus(n.slice.upper)
                                     if up is not None:
                                         ext = canon(up, env)
+                                    elif _is_self_attr(n.slice.upper, "_last_read_count"):
+                                        rest_read = n  # everything that is left in the buffer is taken: it has to be marked consumed
                             if isinstance(n, ast.Call) and isinstance(n.func, ast.Attribute) and n.func.attr == "unpack_from" and len(n.args) >= 2 and _buffer_like(n.args[0]) and _is_self_attr(n.args[1], "_offset"):
                                 ext = canon(ast.Attribute(value=n.func.value, attr="size", ctx=ast.Load()), env)
                             if ext is None:
